@@ -72,6 +72,9 @@ type Case struct {
 	// OwnComma: the caller's own *csv.Reader source (produce) or *csv.Writer destination (consume) is configured with
 	// the separator ';' while the codec is given no separator option for that side: the object's own setting stands. (r8)
 	OwnComma bool `json:"own_comma,omitempty"`
+	// SinkFail: k > 0: the byte sink behind an io.Writer / *csv.Writer destination (consume) or behind the producer's
+	// writer takes k-1 bytes and refuses the rest. A sink that refused a write is an error, never a shorter table. (r8)
+	SinkFail int `json:"sink_fail,omitempty"`
 }
 
 var errSourceFailed = errors.New("scripted failure of the io.WriterTo source")
@@ -150,13 +153,27 @@ func (r onlyReader) Read(p []byte) (int, error) { return r.r.Read(p) }
 type sink struct {
 	buf    bytes.Buffer
 	closed int
+	room   int  // -1: unlimited; else the sink takes this many bytes and refuses the rest (r8)
+	failed bool // the sink has refused a write
 }
+
+var errSinkFull = errors.New("c16: scripted failure of the byte sink")
 
 var errWriteAfterClose = errors.New("c16: write after close")
 
 func (s *sink) Write(p []byte) (int, error) {
 	if s.closed > 0 {
 		return 0, errWriteAfterClose
+	}
+	if s.room >= 0 && len(p) > s.room {
+		n := s.room
+		s.buf.Write(p[:n])
+		s.room = 0
+		s.failed = true
+		return n, errSinkFull
+	}
+	if s.room >= 0 {
+		s.room -= len(p)
 	}
 	return s.buf.Write(p)
 }
@@ -529,6 +546,14 @@ func judgeError(what string, anyError bool, m model, want [][]string, textKind b
 	return false, nil
 }
 
+// sinkRoom: how many bytes the byte sink of the case takes (-1: all). Only in the single-kind modes.
+func (c Case) sinkRoom(mode string) int {
+	if c.SinkFail > 0 && c.Mode == mode {
+		return c.SinkFail - 1
+	}
+	return -1
+}
+
 func (c Case) newStream(data string) *stream {
 	s := &stream{data: []byte(data), chunk: c.Chunk, eofData: c.EOFData, failAt: -1}
 	if c.SrcFail > 0 {
@@ -572,7 +597,7 @@ func checkConsume(c Case, kind int) *kit.Violation {
 		out       func() []byte     // textual destinations
 		recs      func() [][]string // record-level destinations
 		csvw      *csv.Writer
-		snk       = &sink{}
+		snk       = &sink{room: c.sinkRoom("consume")}
 		rf        = &readerFrom{}
 		bu        = &binUnmarshaler{}
 		rw        = &recWriter{retain: !c.Opts.Reuse} // records may only share memory when the caller asked for ReuseRecord
@@ -678,6 +703,12 @@ func checkConsume(c Case, kind int) *kit.Violation {
 			return fmt.Sprintf("%q", recs())
 		}
 		return fmt.Sprintf("the text %q", out())
+	}
+	if snk.failed {
+		if err == nil {
+			return kit.Failf("%s: SINK-FAILURE-AS-SUCCESS: the byte sink refused a write after %d bytes; Consume returned success", what, c.SinkFail-1)
+		}
+		return nil
 	}
 	if c.SrcFail > 0 {
 		if err == nil {
@@ -837,7 +868,7 @@ func checkProduce(c Case, kind int) ([]byte, *kit.Violation) {
 	}
 	want := drop(eff.recs, o.Skip)
 
-	snk := &sink{}
+	snk := &sink{room: c.sinkRoom("produce")}
 	var writer io.Writer = snk
 	if !c.Rich {
 		writer = onlyWriter{snk} // hides Close
@@ -873,6 +904,12 @@ func checkProduce(c Case, kind int) ([]byte, *kit.Violation) {
 	}
 
 	delivered := func() string { return fmt.Sprintf("the text %q", snk.buf.Bytes()) }
+	if snk.failed {
+		if err == nil {
+			return nil, kit.Failf("%s: SINK-FAILURE-AS-SUCCESS: the byte sink refused a write after %d bytes; Produce returned success", what, c.SinkFail-1)
+		}
+		return nil, nil
+	}
 	if (kind == kCSV && c.Rich || kind == kStream) && c.SrcFail > 0 { // the kinds that read from the scripted stream
 		if err == nil {
 			return nil, kit.Failf("%s: SOURCE-FAILURE-AS-SUCCESS: the stream behind the source reported an error before its end (after at most %d of %d bytes); Produce returned success and delivered %s", what, c.SrcFail-1, len(in), delivered())
